@@ -83,9 +83,15 @@ func (t *vFuzzTracer) AfterOpcode(cx *EvalContext, err error) {
 			}
 		}
 	}
+	pcAfter := cx.pc
+	if pcAfter < 0 { // a negative program counter is an internal crash in the making: report it as one
+		t.panicked = true
+		cls = 22
+		pcAfter = 0
+	}
 	if t.nsteps <= t.maxRec {
 		t.steps = append(t.steps, vL(t.pc, t.rem, t.cost, t.calls, t.h, t.top,
-			cls, cx.pc, rem, cx.cost, vCalls(cx), len(cx.Stack), vStackTerm(cx.Stack, vTopK)))
+			cls, pcAfter, rem, cx.cost, vCalls(cx), len(cx.Stack), vStackTerm(cx.Stack, vTopK)))
 	}
 }
 
